@@ -23,6 +23,7 @@ RULES = [
     Rule('C10.R3', 'frequency constants agree with the chip clocks; the coefficient is chosen by the live chip family', 6),
     Rule('C10.R4', 'the octave search has a bounded trip count', 2),
     Rule('C10.R5', 'block / F-number packing and register order', 6),
+    Rule('C10.R6', 'the glide update visits every channel that has a gliding note', 1),
 ]
 EXPLANATION = ('AST def-use slices and constant agreement: the backward slice of the tone argument of OPN2::noteOn inside the Upd_Pitch branch of noteUpdate, '
                'the stores of the RPN 0 bytes paired with the recomputation of the bend range, the frequency constants folded from the AST compared with '
@@ -289,4 +290,42 @@ def analyse(facts, tier):
     obls.append(Obl('C10.R5', on.name, 'key-on channel map', g['loc'], 'discharged' if ok else 'finding', why='g_noteChannelsMap = %s' % g.get('init')))
     ch4 = any(st['s'].get('k') == 'DeclStmt' and any(v['n'] == 'ch4' and show(strip(v.get('init', {}))) == '(c % 6)' for v in st['s']['decls']) for b, j, st in on.cfg.stmts())
     obls.append(Obl('C10.R5', on.name, 'channel within chip = c % 6', on.loc, 'discharged' if ch4 else 'finding', why='ch4 = c % 6' if ch4 else 'channel index within the chip is not c % 6'))
+    obls += r6_glide(facts)
     return obls
+
+
+
+def r6_glide(facts):
+    """a portamento slide ends at the struck key: updateGlide may skip a MIDI channel only because it has no gliding note — every gliding
+    note carries its own rate, so the channel's current portamento switch / rate must not stop a slide that is under way"""
+    out = []
+    ug = facts.fn('OPNMIDIplay::updateGlide')
+    n = 0
+    ifs = []
+    def rec(t):
+        if isinstance(t, dict):
+            if t.get('k') == 'IfStmt':
+                ifs.append(t)
+            for k2 in ('body', 'then', 'else', 'sub', 'init'):
+                v = t.get(k2)
+                if isinstance(v, (dict, list)):
+                    rec(v)
+        elif isinstance(t, list):
+            for y in t:
+                rec(y)
+    rec(ug.tree)
+    for t in ifs:
+        th = t.get('then')
+        th = th['body'][0] if isinstance(th, dict) and th.get('k') == 'CompoundStmt' and len(th.get('body', [])) == 1 else th
+        c = t.get('cond')
+        if not (isinstance(th, dict) and th.get('k') == 'ContinueStmt' and c is not None and mentions(c, member_named('gliding_note_count'))):
+            continue
+        n += 1
+        others = sorted({short(y['n']) for y in walk(c) if y.get('k') == 'MemberExpr' and short(y['n']) not in ('gliding_note_count',) and 'MIDIchannel::' in y['n']})
+        ok = not others
+        out.append(Obl('C10.R6', ug.name, 'channel skipped only when it has no gliding note', '%s:%s' % (ug.file, t.get('ln')), 'discharged' if ok else 'finding',
+                       why='skip test reads gliding_note_count only' if ok else
+                       'the skip test also reads %s: a slide that is under way freezes at an intermediate pitch when that state changes' % ', '.join(others)))
+    if n < 1:
+        raise build.AnalysisBroken('C10.R6: the per-channel skip test of updateGlide was not found')
+    return out
